@@ -15,6 +15,9 @@ var TripUpdateTimestamp uint64
 // (nothing the parsers surface: the delays they surface are those of the stop time events).
 var TripUpdateDelay int32
 
+// DeletedEntity, when not 0, is the index of the entity written with is_deleted = true (a flag of incremental feeds).
+var DeletedEntity int
+
 // DupEntityIDs makes every trip update and vehicle entity carry the same FeedEntity.id.
 var DupEntityIDs bool
 
@@ -151,6 +154,10 @@ func AlertIDText(e Ent) string {
 // Entity renders one abstract entity.
 func Entity(i int, e Ent) *gtfsrt.FeedEntity {
 	fe := &gtfsrt.FeedEntity{Id: sp(fmt.Sprintf("e%d", i))}
+	if DeletedEntity == i {
+		t := true
+		fe.IsDeleted = &t
+	}
 	if DupEntityIDs && e.K != "al" {
 		fe.Id = sp("same-id") // entity ids identify nothing a property speaks about: all trip updates and vehicles share one
 	}
